@@ -132,8 +132,9 @@ const (
 	requireDigest
 )
 
-// descriptorFromResponse tries to form a descriptor from an HTTP response,
-// filling in the Digest field using knownDigest if it's not present.
+// descriptorFromResponse tries to form a descriptor from an HTTP response.
+// The Digest field is knownDigest when that is not empty, otherwise
+// the digest found in the response.
 //
 // Note: this implies that the Digest field will be empty if there is no
 // digest in the response and knownDigest is empty.
@@ -166,11 +167,13 @@ func descriptorFromResponse(resp *http.Response, knownDigest digest.Digest, requ
 		}
 	}
 	digest := digest.Digest(resp.Header.Get("Docker-Content-Digest"))
-	if digest != "" {
-		if !ociref.IsValidDigest(string(digest)) {
-			return ociregistry.Descriptor{}, fmt.Errorf("bad digest %q found in response", digest)
-		}
-	} else {
+	if digest != "" && !ociref.IsValidDigest(string(digest)) {
+		return ociregistry.Descriptor{}, fmt.Errorf("bad digest %q found in response", digest)
+	}
+	if knownDigest != "" {
+		// The caller asked for this digest, so that is what the
+		// content must be checked against, whatever digest the
+		// response claims to carry.
 		digest = knownDigest
 	}
 	if (require&requireDigest) != 0 && digest == "" {
